@@ -239,6 +239,136 @@ Proof.
   destruct ((0 <=? mdb) && (mdb <? rl)) eqn:E; [reflexivity|lia].
 Qed.
 
+(* ---- RunLengthDecode ---- *)
+Definition rl_inv (limit written : Z) (out : list N) : Prop :=
+  written = Z.of_nat (length out) /\ (0 <= limit -> written <= limit).
+Definition rl_good (limit : Z) (r : rlres) : Prop :=
+  r <> RLFuel /\ (0 <= limit -> Z.of_nat (length (rl_out r)) <= limit).
+
+Lemma rl_stop_good : forall limit maxLen written out, rl_inv limit written out ->
+  rl_good limit (rl_stop maxLen out).
+Proof.
+  intros limit maxLen written out [Hw Hl]. unfold rl_stop, rl_good.
+  destruct (0 <=? maxLen); simpl; rewrite rev_length; (split; [discriminate|lia]).
+Qed.
+
+Lemma rl_literal_inv : forall c src limit maxLen written out, rl_inv limit written out ->
+  match rl_literal c src limit maxLen written out with
+  | RLStop r => rl_good limit r
+  | RLCont src' w' out' => rl_inv limit w' out' /\ (length src' <= length src)%nat
+  end.
+Proof.
+  induction c as [|c IH]; intros src limit maxLen written out Hinv; simpl.
+  - split; [exact Hinv|lia].
+  - destruct (rl_at_limit limit written) eqn:E.
+    + apply (rl_stop_good limit maxLen written out Hinv).
+    + destruct src as [|x src'].
+      * destruct Hinv as [Hw Hl]. unfold rl_good. simpl. rewrite rev_length. split; [discriminate|lia].
+      * assert (Hinv' : rl_inv limit (written + 1) (x :: out)).
+        { destruct Hinv as [Hw Hl]. unfold rl_inv, rl_at_limit in *. simpl length. split; lia. }
+        specialize (IH src' limit maxLen (written + 1) (x :: out) Hinv').
+        destruct (rl_literal c src' limit maxLen (written + 1) (x :: out)); [exact IH|].
+        destruct IH as [Hi Hlen]. split; [exact Hi|simpl; lia].
+Qed.
+
+Lemma rl_repeat_inv : forall c x limit maxLen written out, rl_inv limit written out ->
+  match rl_repeat c x limit maxLen written out with
+  | RLStop r => rl_good limit r
+  | RLCont _ w' out' => rl_inv limit w' out'
+  end.
+Proof.
+  induction c as [|c IH]; intros x limit maxLen written out Hinv; simpl.
+  - exact Hinv.
+  - destruct (rl_at_limit limit written) eqn:E.
+    + apply (rl_stop_good limit maxLen written out Hinv).
+    + apply IH. destruct Hinv as [Hw Hl]. unfold rl_inv, rl_at_limit in *. simpl length. split; lia.
+Qed.
+
+Lemma rl_ok_good : forall limit written out, rl_inv limit written out -> rl_good limit (RLOk (rev out)).
+Proof. intros limit written out [Hw Hl]. unfold rl_good. simpl. rewrite rev_length. split; [discriminate|lia]. Qed.
+Lemma rl_eof_good : forall limit written out, rl_inv limit written out -> rl_good limit (RLErrEOF (rev out)).
+Proof. intros limit written out [Hw Hl]. unfold rl_good. simpl. rewrite rev_length. split; [discriminate|lia]. Qed.
+
+Lemma rl_loop_S : forall fuel b rest limit maxLen written out,
+  rl_loop (S fuel) (b :: rest) limit maxLen written out =
+  if (b =? 128)%N then RLOk (rev out)
+  else if (b <? 128)%N then
+    if (length rest <? S (N.to_nat b))%nat then RLErrEOF (rev out)
+    else match rl_literal (S (N.to_nat b)) rest limit maxLen written out with
+         | RLStop r => r
+         | RLCont src' w' out' => rl_loop fuel src' limit maxLen w' out'
+         end
+  else match rest with
+       | [] => RLErrEOF (rev out)
+       | x :: rest' =>
+         match rl_repeat (N.to_nat (257 - b)) x limit maxLen written out with
+         | RLStop r => r
+         | RLCont _ w' out' => rl_loop fuel rest' limit maxLen w' out'
+         end
+       end.
+Proof. reflexivity. Qed.
+
+Lemma rl_loop_good : forall fuel src limit maxLen written out,
+  rl_inv limit written out -> (length src <= fuel)%nat ->
+  rl_good limit (rl_loop fuel src limit maxLen written out).
+Proof.
+  induction fuel as [|fuel IH]; intros src limit maxLen written out Hinv Hlen.
+  - destruct src; [|simpl in Hlen; lia]. apply (rl_ok_good _ _ _ Hinv).
+  - destruct src as [|b rest]; [apply (rl_ok_good _ _ _ Hinv)|].
+    assert (Hlen' : (length rest <= fuel)%nat) by (simpl in Hlen; lia).
+    rewrite rl_loop_S.
+    destruct (b =? 128)%N; [apply (rl_ok_good _ _ _ Hinv)|].
+    destruct (b <? 128)%N.
+    + destruct (length rest <? S (N.to_nat b))%nat; [apply (rl_eof_good _ _ _ Hinv)|].
+      pose proof (rl_literal_inv (S (N.to_nat b)) rest limit maxLen written out Hinv) as HL.
+      destruct (rl_literal (S (N.to_nat b)) rest limit maxLen written out) as [r|src' w' out'].
+      * exact HL.
+      * destruct HL as [Hi Hl]. apply IH; [exact Hi|lia].
+    + destruct rest as [|x rest']; [apply (rl_eof_good _ _ _ Hinv)|].
+      pose proof (rl_repeat_inv (N.to_nat (257 - b)) x limit maxLen written out Hinv) as HR.
+      destruct (rl_repeat (N.to_nat (257 - b)) x limit maxLen written out) as [r|src' w' out'].
+      * exact HR.
+      * apply IH; [exact HR|simpl in Hlen'; lia].
+Qed.
+
+Lemma runlength_le_limit : forall mdb maxLen src,
+  let limit := decodeLimit mdb maxLen in
+  rlDecode mdb maxLen src <> RLFuel /\
+  (0 <= limit -> Z.of_nat (length (rl_out (rlDecode mdb maxLen src))) <= limit).
+Proof.
+  intros mdb maxLen src limit. unfold rlDecode.
+  apply rl_loop_good; [|lia]. unfold rl_inv. simpl. split; [reflexivity|lia].
+Qed.
+
+(* the limit error is only raised with the buffer exactly at the limit, on a full decode *)
+Lemma rl_literal_limit : forall c src limit maxLen written out o, rl_inv limit written out ->
+  rl_literal c src limit maxLen written out = RLStop (RLErrLimit o) ->
+  maxLen < 0 /\ Z.of_nat (length o) = limit.
+Proof.
+  induction c as [|c IH]; intros src limit maxLen written out o Hinv H; simpl in H; [discriminate|].
+  destruct (rl_at_limit limit written) eqn:E.
+  - unfold rl_stop in H. destruct (0 <=? maxLen) eqn:Em; inversion H; subst.
+    destruct Hinv as [Hw _]. unfold rl_at_limit in E. rewrite rev_length. lia.
+  - destruct src as [|x src']; [discriminate|].
+    apply (IH src' limit maxLen (written + 1) (x :: out) o); [|exact H].
+    destruct Hinv as [Hw Hl]. unfold rl_inv, rl_at_limit in *. simpl length. split; lia.
+Qed.
+
+(* ---- ASCIIHexDecode ---- *)
+Lemma ahx_alloc_le_limit : forall mdb digits maxLen n, 0 <= digits ->
+  ahxGate mdb digits maxLen = AHAlloc n ->
+  0 <= n <= digits / 2 /\ n <= maxInt64 / 2 /\
+  (maxLen < 0 -> 0 <= decodeLimit mdb (-1) -> n <= decodeLimit mdb (-1)) /\ (0 <= maxLen -> n = maxLen).
+Proof.
+  intros mdb digits maxLen n Hd H. unfold ahxGate in H.
+  assert (H2 : 0 <= digits / 2) by (apply Z.div_pos; lia).
+  destruct (maxLen <? 0) eqn:Em.
+  - destruct ((0 <=? decodeLimit mdb (-1)) && (decodeLimit mdb (-1) <? digits / 2)) eqn:El; [discriminate|].
+    destruct (maxInt64 / 2 <? digits / 2) eqn:Eo; [discriminate|]. inversion H; subst. lia.
+  - destruct (digits / 2 <? maxLen) eqn:Ee; [discriminate|].
+    destruct (maxInt64 / 2 <? maxLen) eqn:Eo; [discriminate|]. inversion H; subst. lia.
+Qed.
+
 (* ---- decode call sites ---- *)
 Open Scope string_scope.
 (* FROZEN list (file, function) of call sites known to ignore conf.Limits.MaxDecodeBytes
